@@ -660,6 +660,11 @@ impl<'a> Ctx<'a> {
         Ok(Tr { code, ty: Ty::Usize, pure })
       }
       (Ty::Usize, Ty::Usize) => Ok(x),
+      // `b as usize`
+      (Ty::Bool, Ty::Usize) => {
+        let (code, pure) = self.seq(vec![x], |n| (format!("(if {} then 1 else 0)", n[0]), true));
+        Ok(Tr { code, ty: Ty::Usize, pure })
+      }
       _ => Err(format!("unsupported cast {:?} as {:?}", x.ty, target)),
     }
   }
